@@ -122,6 +122,11 @@ func TestC19(t *testing.T) {
 			t.Fatal(err)
 		}
 		allKeys := append(append([]string{}, keys...), "lk")
+		// one embedded client per member for the whole cluster's life (each one opens sockets of its own when it scans)
+		var embs []*olric.EmbeddedClient
+		for _, m := range c.Members {
+			embs = append(embs, m.DB.NewEmbeddedClient())
+		}
 		var embedded []Path
 		for _, p := range paths {
 			if dp, ok := p.(*dmapPath); ok && strings.HasPrefix(dp.Name(), "emb@") {
@@ -165,7 +170,7 @@ func TestC19(t *testing.T) {
 				if rng.Intn(2) == 0 {
 					cl, _ = cc.NewDMap(d)
 				} else {
-					cl, _ = c.Members[rng.Intn(cf.N)].DB.NewEmbeddedClient().NewDMap(d)
+					cl, _ = embs[rng.Intn(cf.N)].NewDMap(d)
 				}
 				if it, err := cl.Scan(ctx); err == nil {
 					for n := 0; n < 1000 && it.Next(); n++ {
@@ -178,13 +183,15 @@ func TestC19(t *testing.T) {
 			}
 		}
 		for pi, prog := range progs {
-			if pi%len(cfgs) != ci && fromTLC > 40 && !allQuiet[pi] {
+			// large exported sets are spread over the cluster shapes; the set of ALL short sequences runs on every shape as long
+			// as it is small (the quick tier's 200), otherwise it is spread as well
+			if pi%len(cfgs) != ci && fromTLC > 40 && (!allQuiet[pi] || len(allQuiet) > 400) {
 				continue // large exported sets are spread over the cluster shapes
 			}
 			seq++
 			// a clean slate: both DMaps destroyed through an embedded client
 			for _, d := range dmaps {
-				dm, _ := c.Members[0].DB.NewEmbeddedClient().NewDMap(d)
+				dm, _ := embs[0].NewDMap(d)
 				dm.Destroy(ctx)
 			}
 			w.Emit(trace.Ev{"t": "reset", "seq": seq, "cfg": label})
@@ -247,7 +254,7 @@ func TestC19(t *testing.T) {
 					case 3:
 						rep = classify(p.(*dmapPath).Destroy(ctx, st.D))
 					case 0:
-						dm, _ := c.Members[rng.Intn(cf.N)].DB.NewEmbeddedClient().NewDMap(st.D)
+						dm, _ := embs[rng.Intn(cf.N)].NewDMap(st.D)
 						rep = classify(dm.Destroy(ctx))
 					case 1:
 						dm, _ := cc.NewDMap(st.D)
@@ -279,6 +286,9 @@ func TestC19(t *testing.T) {
 			}
 		}
 		cc.Close(ctx)
+		for _, e := range embs {
+			e.Close(ctx)
+		}
 		for _, p := range paths {
 			p.Close()
 		}
